@@ -542,6 +542,10 @@ func (fc *funcContext) translateExpr(expr ast.Expr) *expression {
 				fc.zeroValue(t.Elem()),
 			)
 		case *types.Basic:
+			if isString(t) {
+				// Indexing a string out of range is a run-time panic.
+				return fc.formatExpr(rangeCheck("%1e.charCodeAt(%2f)", false, true), e.X, e.Index)
+			}
 			return fc.formatExpr("%e.charCodeAt(%f)", e.X, e.Index)
 		case *types.Signature:
 			switch u := e.X.(type) {
